@@ -410,6 +410,14 @@ fn chk_hdr_invalid(b: &[u8]) -> Result<(), String> {
 fn chk_hdr_fields(fields: &[&str]) -> Result<(), String> {
     for asy in [false, true] {
         let h = header_of_fields(fields);
+        // a header the serialiser refuses (wrong version) first: it must leave no trace in the next call
+        {
+            let mut bad = header_of_fields(fields);
+            bad.spec_version = 4;
+            if header_enc(asy, &bad).is_ok() {
+                return Err(format!("a header with spec_version 4 was serialised (async={asy})"));
+            }
+        }
         let enc = header_enc(asy, &h).map_err(|e| format!("encode failed: {e}"))?;
         if enc.len() != 127 {
             return Err(format!("serialised header has {} bytes (async={asy})", enc.len()));
